@@ -20,6 +20,7 @@ type blockAnchors struct {
 	fReady   *types.Var
 	errs     []string
 	c        *Ctx
+	stepMemo map[*ssa.Function]string
 }
 
 // isReg: the instruction registers the waiter — a call (through a parameter, a closure, an interface or a helper) that
@@ -35,14 +36,70 @@ func (a *blockAnchors) isReg(in ssa.Instruction) (*ssa.Call, bool) {
 			return call, true
 		}
 	}
+	// a step method of a method object (`lb.register()`): a small function without results of its own that does nothing
+	// but register (keeps the signal in a field)
+	if a.stepKind(call.Call.StaticCallee()) == "reg" {
+		return call, true
+	}
 	return nil, false
+}
+
+// stepKind: g is a step of the blocking protocol moved into a method of its own — "reg" when it contains a direct
+// registration, "op" when it contains a direct attempt; never both, and it does not wait.
+func (a *blockAnchors) stepKind(g *ssa.Function) string {
+	if g == nil || !a.c.InPkg(g) || len(g.Blocks) == 0 || len(g.Blocks) > 8 || g.Signature.Recv() == nil {
+		return ""
+	}
+	if a.stepMemo == nil {
+		a.stepMemo = map[*ssa.Function]string{}
+	}
+	if k, ok := a.stepMemo[g]; ok {
+		return k
+	}
+	a.stepMemo[g] = ""
+	regs, ops, waits := 0, 0, false
+	for _, in := range instrsOf(g) {
+		if c2, ok := in.(*ssa.Call); ok {
+			if c2.Call.StaticCallee() != nil && a.c.InPkg(c2.Call.StaticCallee()) {
+				continue // only direct steps: no chains of wrappers
+			}
+			res := c2.Call.Signature().Results()
+			if res.Len() == 1 && a.c.isPkgType(res.At(0).Type(), "wakeSignal") {
+				regs++
+			}
+			if c2.Call.StaticCallee() == nil && res.Len() == 1 && a.c.isPkgType(res.At(0).Type(), "respValue") && c2.Call.Signature().Params().Len() == 0 {
+				if _, isB := c2.Call.Value.(*ssa.Builtin); !isB {
+					ops++
+				}
+			}
+		}
+		if _, ok := in.(*ssa.Select); ok {
+			waits = true
+		}
+	}
+	k := ""
+	switch {
+	case waits:
+	case regs > 0 && ops == 0:
+		k = "reg"
+	case ops > 0 && regs == 0:
+		k = "op"
+	}
+	a.stepMemo[g] = k
+	return k
 }
 
 // isOp: the instruction is an attempt of the command — a call of a function value (parameter, closure, interface
 // method) that yields the reply.
 func (a *blockAnchors) isOp(in ssa.Instruction) (*ssa.Call, bool) {
 	call, ok := in.(*ssa.Call)
-	if !ok || call.Call.StaticCallee() != nil {
+	if !ok {
+		return nil, false
+	}
+	if c2, isStep := a.isOpStep(in); isStep {
+		return c2, true
+	}
+	if call.Call.StaticCallee() != nil {
 		return nil, false
 	}
 	if _, isB := call.Call.Value.(*ssa.Builtin); isB {
@@ -50,6 +107,15 @@ func (a *blockAnchors) isOp(in ssa.Instruction) (*ssa.Call, bool) {
 	}
 	res := call.Call.Signature().Results()
 	if res.Len() == 1 && a.c.isPkgType(res.At(0).Type(), "respValue") && call.Call.Signature().Params().Len() == 0 {
+		return call, true
+	}
+	return nil, false
+}
+
+// isOpStep: a call of a step method that makes the attempt (`lb.try()`).
+func (a *blockAnchors) isOpStep(in ssa.Instruction) (*ssa.Call, bool) {
+	call, ok := in.(*ssa.Call)
+	if ok && a.stepKind(call.Call.StaticCallee()) == "op" {
 		return call, true
 	}
 	return nil, false
